@@ -298,14 +298,17 @@ def checkCollectionSize (size lengthsPerElement : Nat) : Parser Unit := do
   if size * lengthsPerElement > rem ∧ size > 1024 then Parser.fail "collection size exceeds remaining bytes"
   else pure ()
 
-/-- one element (or map key / map value) of `writeCollection` / `writeMap`: encode, then `WriteBytes` (errors
-    ignored, the length is `int32(len)`) or, for v2, refuse NULL and `WriteShortBytes` (length `uint16(len)`) -/
+/-- one element of `writeCollection`: encode, then `WriteBytes` (errors ignored, the length is `int32(len)`) or, for
+    v2, refuse NULL (`collectionElementNil`), then refuse `len(encodedElem) > math.MaxUint16`
+    (`collectionElementTooLarge`), then `WriteShortBytes` (so the `uint16(len)` cast never truncates) -/
 def writeElem (version : Nat) (enc : Option CqlVal → Res (Option Bytes)) (x : Option CqlVal) : Res Bytes := do
   let encodedElem ← enc x
   if uses4 version then pure (writeBytes encodedElem)
   else match encodedElem with
     | none => .err "collection element is nil"
-    | some b => pure (writeShortBytes (some b))
+    | some b =>
+      if b.length > 65535 then .err "collection element too large"
+      else pure (writeShortBytes (some b))
 
 /-- one element of `readCollection` / `readMap`: `ReadBytes` or `ReadShortBytes` -/
 def readElemBytes (version : Nat) : Parser (Option Bytes) :=
@@ -328,6 +331,8 @@ def readCollection (version : Nat) (dec : Option Bytes → Res (Option CqlVal)) 
     checkCollectionSize size 1
     readN size (readCollectionElem version dec)) source
 
+/-- one entry of `writeMap`: key and value are both encoded first; v2 refuses a nil key, a nil value, a key and a
+    value longer than `math.MaxUint16` (`collectionElementTooLarge`), in that order, before anything is written -/
 def writeMapEntry (version : Nat) (encK encV : Option CqlVal → Res (Option Bytes))
     (e : Option CqlVal × Option CqlVal) : Res Bytes := do
   let encodedKey ← encK e.1
@@ -336,7 +341,11 @@ def writeMapEntry (version : Nat) (encK encV : Option CqlVal → Res (Option Byt
   else match encodedKey, encodedValue with
     | none, _ => .err "map key is nil"
     | some _, none => .err "map value is nil"
-    | some k, some v => pure (writeShortBytes (some k) ++ writeShortBytes (some v))
+    | some k, some v =>
+      -- both nil checks come first, then the two `len(...) > math.MaxUint16` checks, key before value
+      if k.length > 65535 then .err "map key too large"
+      else if v.length > 65535 then .err "map value too large"
+      else pure (writeShortBytes (some k) ++ writeShortBytes (some v))
 
 def writeMap (version : Nat) (encK encV : Option CqlVal → Res (Option Bytes))
     (entries : List (Option CqlVal × Option CqlVal)) : Res Bytes := do
@@ -456,6 +465,13 @@ def writeUdt (version : Nat) : List Bytes → List DataType → List (Option Cql
     pure (writeBytes encodedField ++ rest)
 end
 
+/-- one field of `readUdt`: `var encodedField []byte; if reader.Len() > 0 { encodedField, err = ReadBytes(reader) }` —
+    once the input is exhausted the field's bytes stay nil (native_protocol_v5.spec §6: a UDT value "is allowed to have
+    less values than the type has fields") -/
+def readUdtFieldBytes : Parser (Option Bytes) := do
+  let rem ← remaining
+  if rem > 0 then readBytes else pure none
+
 -- `Codec.Decode` of the codec built for a type
 mutual
 def decodeC (version : Nat) : DataType → Option Bytes → Res (Option CqlVal)
@@ -487,11 +503,13 @@ def readTuple (version : Nat) : List DataType → Parser (List (Option CqlVal))
     let fs ← readTuple version ts
     pure (f :: fs)
 
+/-- `readUdt`: `name := fieldNames[i]` first; then one `[bytes]` per field codec while input remains, nil (NULL) for
+    every field after the input is exhausted. (`readTuple` above is unchanged: it requires every field.) -/
 def readUdt (version : Nat) : List Bytes → List DataType → Parser (List (Option CqlVal))
   | _, [] => pure []
   | [], _ :: _ => Parser.panic "readUdt: fieldNames index out of range"
   | _ :: ns, t :: ts => do
-    let encodedField ← readBytes
+    let encodedField ← readUdtFieldBytes
     let f ← liftR (decodeC version t encodedField)
     let fs ← readUdt version ns ts
     pure (f :: fs)
